@@ -363,7 +363,7 @@ def config_signature(i, c, args):
         if f == "utls-nosni":
             want_true = cls == "ok"
             if bool(v) != want_true:
-                return "ClientMain/config:utls-nosni-%s" % ("set-by-another-connection" if v else "not-applied")
+                return "ClientMain/config:utls-nosni-%s" % (("set-by-a-value-that-is-neither-true-nor-yes" if cls == "bad" else "set-by-another-connection") if v else "not-applied")
             continue
         if v == -2:
             return "ClientMain/config:value-nobody-sent/%s" % f
@@ -396,7 +396,7 @@ def signature(trace, hw):
                 return "ClientMain/copy:%s-stream-corrupt/after-%s" % (side, cname)
         if e["d"] == "done" and (e["sclosed"] != 1 or e["fclosed"] != 1):
             return "ClientMain/copy:closes-socks=%d-sf=%d" % (e["sclosed"], e["fclosed"])
-        if e["d"] == "copy" and prev_obs is not None and cmd.get("ev") in ("SocksEnd", "SfEnd", "SocksWriteFail", "SfWriteFail", "SocksChunk", "SfChunk") and (e["u"], e["v"]) != ("read", "read"):
+        if e["d"] == "copy" and (e["u"], e["v"]) != ("read", "read"):
             return "ClientMain/hang:copyLoop-does-not-return-when-one-direction-ended"
         if cmd.get("ev") in ("SocksChunk", "SfChunk") and prev_obs is not None and e["sgot"] == prev_obs["sgot"] and e["fgot"] == prev_obs["fgot"] and e["d"] == "copy":
             return "ClientMain/copy:chunk-missing/after-%s" % cname
@@ -475,9 +475,12 @@ def trace_cfg(mode):
 def validate(chk, traces, tag):
     """TLC decides, per trace, whether ClientMain explains it.  Returns (accepted, [(trace, hw)] rejected)."""
     groups = collections.defaultdict(list)
+    noted = [t for t in traces if t.get("note")]
+    if noted:
+        chk.fail("clientmain harness: %d schedule(s) without a usable trace, e.g. schedule %s: %s" % (len(noted), noted[0]["id"], noted[0]["note"]))
     for t in traces:
         if t.get("note"):
-            raise vlib.Inconclusive("clientmain harness: schedule %s: %s" % (t["id"], t["note"]))
+            continue
         groups[t["mode"]].append(t)
     jobs = []
     for mode, ts in sorted(groups.items()):
